@@ -35,9 +35,9 @@ def pn_stage(name, quick, thorough, sample_q, sample_t):
 
 DEFECT = bfs("MC_PageNumber", "PN_grid_defect", expect_violation=True)
 STAGE_C11 = pn_stage("pagenumber-order", [bfs("MC_PageNumber", "PN_grid_anyorder"), bfs("MC_PageNumber", "PN_q2_anyorder"), DEFECT],
-                     [bfs("MC_PageNumber", "PN_grid_anyorder"), bfs("MC_PageNumber", "PN_q2_anyorder"), bfs("MC_PageNumber", "PN_grid_t", timeout=3000), DEFECT], 8000, 60000)
+                     [bfs("MC_PageNumber", "PN_grid_anyorder"), bfs("MC_PageNumber", "PN_q2_anyorder"), bfs("MC_PageNumber", "PN_grid_t", timeout=3000, keep=8), DEFECT], 8000, 60000)
 STAGE_C16 = pn_stage("pagenumber-model", [bfs("MC_PageNumber", "PN_grid_q"), bfs("MC_PageNumber", "PN_q2_q")],
-                     [bfs("MC_PageNumber", "PN_grid_t", timeout=3000), bfs("MC_PageNumber", "PN_q2_t", timeout=3000), bfs("MC_PageNumber", "PN_one_t", timeout=3000)], 10000, 160000)
+                     [bfs("MC_PageNumber", "PN_grid_t", timeout=3000, keep=8), bfs("MC_PageNumber", "PN_q2_t", timeout=3000, keep=8), bfs("MC_PageNumber", "PN_one_t", timeout=3000, keep=8)], 10000, 160000)
 STAGE_C17 = pn_stage("pagenumber-model", [bfs("MC_PageNumber", "PN_conv"), bfs("MC_PageNumber", "PN_one_q"), bfs("MC_PageNumber", "PN_file_q"), bfs("MC_PageNumber", "PN_q_q")],
-                     [bfs("MC_PageNumber", "PN_conv"), bfs("MC_PageNumber", "PN_one_t", timeout=3000), bfs("MC_PageNumber", "PN_file_t", timeout=3000),
-                      bfs("MC_PageNumber", "PN_q_t", timeout=3000)], 9000, 150000)
+                     [bfs("MC_PageNumber", "PN_conv"), bfs("MC_PageNumber", "PN_one_t", timeout=3000, keep=8), bfs("MC_PageNumber", "PN_file_t", timeout=3000, keep=8),
+                      bfs("MC_PageNumber", "PN_q_t", timeout=3000, keep=8)], 9000, 150000)
